@@ -10,7 +10,7 @@ def components():
 
 
 def oracles_():
-    return [comps_uord.UordReverseOracle(), oracles.Diff(), oracles.DiffUord()]
+    return [comps_uord.UordReverseOracle(), oracles.DiffRev(), oracles.DiffUordRev()]
 
 
 MANIFEST = {
